@@ -1373,6 +1373,122 @@ func runLong(w *tr.W, rng *rand.Rand, kind string, nl, qopt, n int) {
 	wd.finale()
 }
 
+// ---------------------------------------------------------------- Stop races, one compact event per round
+
+// raceRound: a fresh, started executor; `stoppers` goroutines are released together, each calls
+// Stop and, as soon as ITS Stop has returned, submits one call (to a lane in the upper half, where a
+// Stop that closes the lanes one after the other arrives last).  After a Stop that has returned no
+// call may be accepted or executed - whichever Stop it was.  Counted: calls that came back with
+// their own result (accepted), callee entries (executed), replies that are neither that nor
+// "closed" (other), goroutines (stoppers, the wait for termination) that did not come back within
+// the watchdog's time (stuck).  The lanes may be far more than the specification models: only the
+// counts are logged.
+func raceRound(kind string, nl, stoppers int, hvs []int) (accepted, executed, other, stuck int) {
+	var wg sync.WaitGroup
+	var entered int32
+	var run, stop func()
+	var submit func(hv, id int) (interface{}, error)
+	var waitTerm func()
+	ctx := context.Background()
+	switch kind {
+	case "line":
+		ln := line.NewLine(&wg, line.WithQSize(8))
+		fn := func(ctx context.Context, req interface{}) (interface{}, error) {
+			atomic.AddInt32(&entered, 1)
+			return req, nil
+		}
+		run, stop, waitTerm = ln.Run, ln.Stop, wg.Wait
+		submit = func(hv, id int) (interface{}, error) { return ln.AsyncCall(ctx, line.NewCallCtx(fn, id)) }
+	case "mline":
+		ml := mline.NewMultiLine(pipe.WithSlotSize(nl), pipe.WithQSize(8))
+		fn := func(ctx context.Context, idx int, req interface{}) (interface{}, error) {
+			atomic.AddInt32(&entered, 1)
+			return req, nil
+		}
+		run, stop = ml.Run, ml.Stop
+		waitTerm = func() { _ = ml.WaitStop(ctx) }
+		submit = func(hv, id int) (interface{}, error) { return ml.AsyncCall(ctx, mline.NewCallCtx(hv, fn, id)) }
+	case "runq":
+		rq := async.NewRunnerQ(async.WithQSize(8), async.WithWaitGroup(&wg))
+		run, stop = rq.Run, rq.Stop
+		waitTerm = func() { rq.WaitStop(); wg.Wait() }
+		submit = func(hv, id int) (interface{}, error) {
+			return rq.AsyncDelegate(ctx, func(ctx context.Context) (interface{}, error) {
+				atomic.AddInt32(&entered, 1)
+				return id, nil
+			})
+		}
+	default:
+		pc := async.NewProcChan(async.WithQSize(8), async.WithWaitGroup(&wg))
+		run, stop, waitTerm = pc.Run, pc.Stop, wg.Wait
+		submit = func(hv, id int) (interface{}, error) { return pc.AsyncProc(ctx, raceProc{&entered, id}) }
+	}
+	run()
+	var acc, oth, back int32
+	fs := make([]func(), stoppers)
+	for i := range fs {
+		i := i
+		fs[i] = func() {
+			defer atomic.AddInt32(&back, 1)
+			defer func() {
+				if recover() != nil {
+					atomic.AddInt32(&oth, 1)
+				}
+			}()
+			stop()
+			v, err := submit(hvs[i], 1000+i)
+			switch {
+			case err == nil && v == interface{}(1000+i):
+				atomic.AddInt32(&acc, 1)
+			case err == pipe.ErrQueueClosed || err == async.ErrClosed:
+			default:
+				atomic.AddInt32(&oth, 1)
+			}
+		}
+	}
+	release(fs)
+	go func() { waitTerm(); atomic.AddInt32(&back, 1) }()
+	// a watchdog, not an oracle: everything above takes microseconds; what has not come back after
+	// seconds is reported as stuck
+	deadline := time.Now().Add(5 * time.Second)
+	for int(atomic.LoadInt32(&back)) < stoppers+1 && time.Now().Before(deadline) {
+		runtime.Gosched()
+	}
+	return int(atomic.LoadInt32(&acc)), int(atomic.LoadInt32(&entered)), int(atomic.LoadInt32(&oth)),
+		stoppers + 1 - int(atomic.LoadInt32(&back))
+}
+
+type raceProc struct {
+	entered *int32
+	id      int
+}
+
+func (p raceProc) Do(ctx context.Context) (interface{}, error) {
+	atomic.AddInt32(p.entered, 1)
+	return p.id, nil
+}
+
+// runRaces: one trace per (kind, lane count): `n` rounds, one `late` event each.
+func runRaces(w *tr.W, rng *rand.Rand, kind string, nl, n int) {
+	mnl := nl
+	if kind != "mline" {
+		mnl = 1
+	}
+	w.Emit(tr.E{"ev": "reset", "kind": kind, "nl": mnl, "qsize": 8, "src": "race", "idx": false, "qopt": "8", "nowg": false})
+	for i := 0; i < n; i++ {
+		stoppers := 2 + rng.Intn(2)
+		hvs := make([]int, stoppers)
+		for k := range hvs {
+			hvs[k] = mnl/2 + rng.Intn(mnl-mnl/2)
+			if rng.Intn(4) == 0 {
+				hvs[k] = -hvs[k]
+			}
+		}
+		a, e, o, st := raceRound(kind, mnl, stoppers, hvs)
+		w.Emit(tr.E{"ev": "late", "stoppers": stoppers, "accepted": a, "executed": e, "other": o, "stuck": st})
+	}
+}
+
 // runWide: a MultiLine with far more lanes than the specification models (counts around the default
 // 509 and around powers of two).  No call is made (a call could land on a lane that is not
 // modelled); what is observed is IndexOf for the boundary hashes - in range for that lane count -,
@@ -1521,6 +1637,7 @@ func main() {
 	nmicro := flag.Int("nmicro", 120, "life-cycle rounds without callers (one Stop releasing every parked goroutine)")
 	nlong := flag.Int("nlong", 1, "executors (of 4 kinds) that get the 65537-call run; all get the 257-call run")
 	nwide := flag.Int("nwide", 4, "MultiLines with hundreds of lanes")
+	nrace := flag.Int("nrace", 2000, "Stop || Stop rounds with a submission right after each Stop returned")
 	flag.Parse()
 	rng := rand.New(rand.NewSource(*seed))
 	worldSeq = int(*seed % 1000)
@@ -1607,6 +1724,18 @@ func main() {
 		kind := kinds[i%len(kinds)]
 		threads := 2 + rng.Intn(3)
 		runStress(w, rng, kind, lanes(kind), qopt(kind), threads, maxCalls/threads, rng.Intn(4)%3)
+	}
+	// last (they leave nothing behind, but nothing else should run beside thousands of short-lived lanes)
+	type rc struct {
+		kind string
+		nl   int
+		pct  int
+	}
+	for _, c := range []rc{{"mline", 4096, 6}, {"mline", 1024, 10}, {"mline", 509, 14}, {"mline", 64, 12}, {"mline", 7, 12},
+		{"mline", 2, 10}, {"line", 1, 12}, {"runq", 1, 12}, {"pchan", 1, 12}} {
+		if n := *nrace * c.pct / 100; n > 0 {
+			runRaces(w, rng, c.kind, c.nl, n)
+		}
 	}
 	w.Close()
 	fmt.Printf("events=%d\n", w.N())
